@@ -753,6 +753,43 @@ def ty_of(s):
     return sexp_types.ty_of_sexp(gen.parse_sexps(s)[0])
 
 
+def check_populated_spec_objects(rep):
+    """the type handed over with the Python tree may be a schema object or a value object (the documentation says either): what
+    the object happens to hold - other values, the DEFAULT values, nothing - does not reach the octets. SEQUENCE and SET with
+    DEFAULT and OPTIONAL scalar members, every codec; trees equal to the defaults, equal to what the spec object holds, and
+    neither"""
+    for cls in (univ.Sequence, univ.Set):
+        T = cls(componentType=namedtype.NamedTypes(
+            namedtype.DefaultedNamedType('flag', univ.Boolean(False)), namedtype.DefaultedNamedType('n', univ.Integer(0)),
+            namedtype.OptionalNamedType('s', univ.OctetString().subtype(implicitTag=ptag.Tag(ptag.tagClassContext, ptag.tagFormatSimple, 2))),
+            namedtype.NamedType('id', univ.Integer().subtype(implicitTag=ptag.Tag(ptag.tagClassContext, ptag.tagFormatSimple, 3)))))
+        helds = {'pristine': {}, 'defaults': {'flag': False, 'n': 0, 'id': 1}, 'others': {'flag': True, 'n': 5, 's': b'zz', 'id': 9},
+                 'partial': {'n': 7}}
+        trees = [{'id': 1}, {'flag': True, 'n': 7, 'id': 1}, {'flag': False, 'n': 5, 'id': 2}, {'flag': True, 'n': 5, 's': b'zz', 'id': 9},
+                 {'flag': False, 'n': 0, 'id': 9}, {'n': 7, 'id': 3}, {'s': b'', 'id': 4}]
+        for hname, hv in sorted(helds.items()):
+            for tree in trees:
+                for cdc in ('ber', 'cer', 'der'):
+                    rep.evaluations += 1
+                    rep.count('populated-spec-objects')
+                    case = {'kind': 'populated-spec', 'container': cls.__name__, 'spec-holds': hname, 'tree': repr(tree), 'codec': cdc}
+                    spec = T.clone()
+                    for k_, x_ in hv.items():
+                        spec[k_] = x_
+                    v = T.clone()
+                    for k_, x_ in tree.items():
+                        v[k_] = x_
+                    try:
+                        want = codec.ENC[cdc].encode(v)
+                        got = codec.ENC[cdc].encode(dict(tree), asn1Spec=spec)
+                    except Exception as e:  # noqa
+                        rep.fail('populated-spec-' + codec.classify(e), '%r' % (e,), case)
+                        continue
+                    if got != want:
+                        rep.fail('tree-plus-populated-spec-differs-' + cdc, '%s: tree %r with a spec object holding %s gives %s, the value object %s' % (
+                            cls.__name__, tree, hname, got.hex(), want.hex()), case)
+
+
 def run(rep, tier, seed):
     common.prove(rep)
     rng = common.rng_for(seed, 'C17')
@@ -776,6 +813,8 @@ def run(rep, tier, seed):
         for chunk in (2, 1):
             check_tree(rep, drv, case, rng, chunk, 0)
     run_specials(rep)
+    rep.case('populated spec objects', nontrivial=True)
+    check_populated_spec_objects(rep)
     for case in engine.gen_cases(rng, n, max_depth=3):
         if not engine.representable(case):
             rep.count('unrepresentable')
